@@ -176,10 +176,14 @@ class Env(object):
     def _h(self, *k):
         return int.from_bytes(hashlib.blake2b(repr((self.seed,) + k).encode(), digest_size=16).digest(), 'big')
 
-    def id_value(self, name, size):
+    def id_value(self, name, size, is_reg=False):
+        # an identifier is (name, width, register-or-symbol): a register and an assembler symbol of one name are two identifiers
+        # (the library's own equality distinguishes them); explicit values are given by name and serve both unless 'reg:<name>' is set
+        if is_reg and ('reg:' + name) in self.ids:
+            return self.ids['reg:' + name] & mask(size)
         if name in self.ids:
             return self.ids[name] & mask(size)
-        return self._h('id', name) & mask(size)
+        return (self._h('id', name, 'reg') if is_reg else self._h('id', name)) & mask(size)
 
     def byte(self, addr, space=None):
         addr &= mask(self.addr_bits)
@@ -236,7 +240,7 @@ def evaluate(e, env, strict=True):
     if k == 'ExprInt':
         return int(e.arg) & mask(e.arg.size)
     if k == 'ExprId':
-        return env.id_value(e.name, e.size)
+        return env.id_value(e.name, e.size, bool(getattr(e, 'is_reg', False)))
     if k == 'ExprMem':
         check_shape(e)
         a = evaluate(e.arg, env, strict)
